@@ -292,3 +292,65 @@ func (w *World) contractsSorted() []*Contract {
 	sort.SliceStable(cs, func(i, j int) bool { return cs[i].FullKey < cs[j].FullKey })
 	return cs
 }
+
+// aliasExtern: a pure extern may name its results for use in specifications (opt alias=a,b)
+func (w *World) aliasExtern(name string) (*Contract, int) {
+	for _, ct := range w.cs.All {
+		if ct.Kind != "extern" || !ct.Pure {
+			continue
+		}
+		if al, ok := ct.Opts["alias"]; ok {
+			for i, a := range strings.Split(al, ",") {
+				if a == name {
+					return ct, i
+				}
+			}
+		}
+	}
+	return nil, 0
+}
+
+// lookupGoType resolves "pkg.Type" or "pkg.Type[basic]" among all packages of the program.
+func (w *World) lookupGoType(t string) types.Type {
+	dot := strings.Index(t, ".")
+	if dot <= 0 || strings.ContainsAny(t[:dot], "[]*( ") {
+		return nil
+	}
+	pkgName, rest := t[:dot], t[dot+1:]
+	targ := ""
+	if i := strings.Index(rest, "["); i > 0 && strings.HasSuffix(rest, "]") {
+		targ = rest[i+1 : len(rest)-1]
+		rest = rest[:i]
+	}
+	for _, sp := range w.prog.AllPackages() {
+		if sp.Pkg.Name() != pkgName {
+			continue
+		}
+		obj := sp.Pkg.Scope().Lookup(rest)
+		tn, ok := obj.(*types.TypeName)
+		if !ok {
+			continue
+		}
+		if targ == "" {
+			return tn.Type()
+		}
+		var ta types.Type
+		for _, b := range types.Typ {
+			if b.Name() == targ {
+				ta = b
+			}
+		}
+		if ta == nil {
+			ta = w.lookupGoType(targ)
+		}
+		if ta == nil {
+			return nil
+		}
+		inst, err := types.Instantiate(nil, tn.Type(), []types.Type{ta}, false)
+		if err != nil {
+			return nil
+		}
+		return inst
+	}
+	return nil
+}
